@@ -253,7 +253,8 @@ def r03_1(ctx) -> None:
                 outer = u
                 while outer.parent is not None:
                     outer = outer.parent  # nested wrappers are covered by their enclosing definition
-                contract = BY_CONTRACT.get(ctx.pkg.canonical(outer)) or (
+                cname_ = ctx.pkg.canonical(outer)
+                contract = BY_CONTRACT.get(cname_) or BY_CONTRACT.get(cname_.rsplit(".", 1)[0]) or (
                     BY_CONTRACT.get(ctx.pkg.canonical_class(outer.cls)) if outer.cls is not None else None)
                 if not contract and _is_internal(outer):
                     # a private factory working on behalf of by-contract operation(s) only
@@ -830,8 +831,17 @@ def r03_3(ctx) -> None:
                   f"[first call, {'awaitable' if awaitable else 'plain'} result] the wrapped callable is invoked exactly once, "
                   "the decision is isinstance(result, Awaitable): " + text, witness=str(sorted(map(str, got)))[:400])
     f = ctx.unit("_core.force_async.async_wrapped")
+    fa_ = ctx.unit("_core.force_async")
+    callee = fa_.param_names()[0] if fa_.param_names() else "call"
+    if f.cls is not None and f.parent is None:
+        # (the wrapper is an object of a private class: the callable is the field its __init__ stores)
+        init_ = f.cls.methods.get("__init__")
+        flds = [t.attr for st in (own_nodes(init_.node) if init_ is not None else []) if isinstance(st, ast.Assign)
+                for t in st.targets if isinstance(t, ast.Attribute) and isinstance(st.value, ast.Name)
+                and st.value.id in init_.param_names()[1:]]
+        callee = f"{f.param_names()[0]}.{flds[0]}" if len(flds) == 1 else "?"
     ok = f.kind == "coroutine" and any(isinstance(x, ast.Return) and isinstance(x.value, ast.Call) and
-                                       norm(x.value.func) == "call" for x in own_nodes(f.node))
+                                       norm(x.value.func) == callee for x in own_nodes(f.node))
     ctx.check(ok, "R03.3", f, "async_wrapped", "force_async builds a coroutine function that calls the sync callable")
 
 
@@ -878,6 +888,18 @@ def value_kind(ctx, unit: Unit, e, at, depth: int = 0) -> str:
         r = ctx.pkg.resolve_expr_global(unit.module, e.func)
         if r.kind == "stdlib" and r.qual in ("functools.update_wrapper",):
             return value_kind(ctx, unit, e.args[0], at, depth)
+        # a private plain helper of the library that hands one of its parameters back (``return lru`` after dressing it up):
+        # what the call gives is what was passed for that parameter
+        t_ = ctx.pkg.lib_unit(r.qual) if r.kind == "lib" else None
+        if t_ is not None and t_.kind == "sync" and t_.node.name.startswith("_") and depth < 4 and not e.keywords \
+                and not any(isinstance(a_, ast.Starred) for a_ in e.args):
+            rets = [x.value for x in own_nodes(t_.node) if isinstance(x, ast.Return)]
+            names = t_.param_names()
+            stores = {x.id for x in own_nodes(t_.node) if isinstance(x, ast.Name) and isinstance(x.ctx, ast.Store)}
+            if rets and all(isinstance(v_, ast.Name) and v_.id in names and v_.id not in stores for v_ in rets):
+                idx = {names.index(v_.id) for v_ in rets}
+                if len(idx) == 1 and next(iter(idx)) < len(e.args):
+                    return value_kind(ctx, unit, e.args[next(iter(idx))], at, depth + 1)
     v = ctx.vals.expr(unit, e, at)
     kinds = set()
     for a in v:
